@@ -32,16 +32,16 @@ impl PartialEq for F32 {
 }
 
 #[derive(Deserialize, Serialize, Debug, PartialEq, Clone)]
-struct Unit;
+pub struct Unit;
 
 #[derive(Deserialize, Serialize, Debug, PartialEq, Clone)]
-struct Newtype(i32);
+pub struct Newtype(i32);
 
 #[derive(Deserialize, Serialize, Debug, PartialEq, Clone)]
-struct Pair(i32, String);
+pub struct Pair(i32, String);
 
 #[derive(Deserialize, Serialize, Debug, PartialEq, Eq, Hash, PartialOrd, Ord, Clone)]
-enum Fieldless {
+pub enum Fieldless {
     A,
     B,
     #[serde(rename = "c d")]
@@ -49,7 +49,7 @@ enum Fieldless {
 }
 
 #[derive(Deserialize, Serialize, Debug, PartialEq, Clone)]
-enum Shapes {
+pub enum Shapes {
     Unit,
     Newtype(i16),
     Tuple(u8, String),
@@ -57,7 +57,7 @@ enum Shapes {
 }
 
 #[derive(Deserialize, Serialize, Debug, PartialEq, Clone)]
-struct Plain {
+pub struct Plain {
     a: i32,
     b: String,
     c: Vec<u8>,
@@ -65,7 +65,7 @@ struct Plain {
 }
 
 #[derive(Deserialize, Serialize, Debug, PartialEq, Clone, Default)]
-struct Defaults {
+pub struct Defaults {
     #[serde(default)]
     a: i32,
     #[serde(default)]
@@ -76,13 +76,13 @@ struct Defaults {
 
 #[derive(Deserialize, Serialize, Debug, PartialEq, Clone)]
 #[serde(deny_unknown_fields)]
-struct Strict {
+pub struct Strict {
     x: u8,
     y: i8,
 }
 
 #[derive(Deserialize, Serialize, Debug, PartialEq, Clone)]
-struct Borrowing<'a> {
+pub struct Borrowing<'a> {
     #[serde(borrow)]
     s: &'a str,
     #[serde(borrow)]
@@ -91,7 +91,7 @@ struct Borrowing<'a> {
 }
 
 #[derive(Deserialize, Serialize, Debug, PartialEq, Clone)]
-struct Nested {
+pub struct Nested {
     p: Plain,
     e: Shapes,
     m: BTreeMap<String, F64>,
@@ -100,7 +100,7 @@ struct Nested {
 
 #[derive(Deserialize, Serialize, Debug, PartialEq, Clone)]
 #[serde(untagged)]
-enum Untagged {
+pub enum Untagged {
     N(i64),
     S(String),
     L(Vec<u8>),
@@ -108,7 +108,7 @@ enum Untagged {
 }
 
 #[derive(Deserialize, Serialize, Debug, PartialEq, Clone)]
-struct Flat {
+pub struct Flat {
     id: u32,
     #[serde(flatten)]
     rest: BTreeMap<String, i64>,
@@ -116,20 +116,20 @@ struct Flat {
 
 #[derive(Deserialize, Serialize, Debug, PartialEq, Clone)]
 #[serde(tag = "t")]
-enum Internally {
+pub enum Internally {
     A { x: i32 },
     B { y: String },
 }
 
 #[derive(Deserialize, Serialize, Debug, PartialEq, Clone)]
 #[serde(tag = "t", content = "c")]
-enum Adjacent {
+pub enum Adjacent {
     A(i32),
     B(String, bool),
 }
 
 #[derive(Deserialize, Serialize, Debug, PartialEq, Clone)]
-struct BCow<'a>(#[serde(borrow)] Cow<'a, str>);
+pub struct BCow<'a>(#[serde(borrow)] Cow<'a, str>);
 
 fn outcome<T: Debug, E: std::fmt::Display>(r: &Result<T, E>) -> String {
     match r {
